@@ -13,6 +13,7 @@ from typing import (
     List,
     Optional,
     Sequence,
+    Set,
     Tuple,
     Type,
     Union,
@@ -36,6 +37,7 @@ from pdfminer.pdfexceptions import (
 from pdfminer.pdfparser import PDFParser, PDFStreamParser, PDFSyntaxError
 from pdfminer.pdftypes import (
     DecipherCallable,
+    PDFObjRef,
     PDFStream,
     decipher_all,
     dict_value,
@@ -909,19 +911,29 @@ class PDFDocument:
         if "Outlines" not in self.catalog:
             raise PDFNoOutlines
 
+        visited: Set[int] = set()
+
         def search(entry: object, level: int) -> Iterator[PDFDocument.OutlineType]:
-            entry = dict_value(entry)
-            if "Title" in entry:
-                if "A" in entry or "Dest" in entry:
-                    title = decode_text(str_value(entry["Title"]))
-                    dest = entry.get("Dest")
-                    action = entry.get("A")
-                    se = entry.get("SE")
-                    yield (level, title, dest, action, se)
-            if "First" in entry and "Last" in entry:
-                yield from search(entry["First"], level + 1)
-            if "Next" in entry:
-                yield from search(entry["Next"], level)
+            # Siblings are walked in a loop, only nesting recurses: a long
+            # chain of /Next items must not exhaust the interpreter stack.
+            while entry is not None:
+                if isinstance(entry, PDFObjRef):
+                    if entry.objid in visited:
+                        # Malformed outline: /First or /Next leads back to
+                        # an item that was already listed.
+                        return
+                    visited.add(entry.objid)
+                entry = dict_value(entry)
+                if "Title" in entry:
+                    if "A" in entry or "Dest" in entry:
+                        title = decode_text(str_value(entry["Title"]))
+                        dest = entry.get("Dest")
+                        action = entry.get("A")
+                        se = entry.get("SE")
+                        yield (level, title, dest, action, se)
+                if "First" in entry and "Last" in entry:
+                    yield from search(entry["First"], level + 1)
+                entry = entry.get("Next")
 
         return search(self.catalog["Outlines"], 0)
 
